@@ -4,7 +4,7 @@ from checks import stage_check, step_check
 
 def _sizes(tier, k):
     if tier == "quick":
-        return {2: [3], 3: [4]}.get(k, [k + 1])
+        return {2: [2, 3], 3: [4]}.get(k, [k + 1])
     return {2: [2, 3, 4, 5, 6], 3: [3, 4, 5], 4: [4, 5]}.get(k, [k + 1])
 
 
